@@ -181,19 +181,27 @@ def rand_text(r, g):
     return c, "".join(t) or c.text[:8]
 
 
-def rand_clusters(r, n):
-    """non-decreasing input cluster numbering: mostly 0..n-1, sometimes with gaps and repeats"""
+def rand_clusters(r, n, repeats=False):
+    """input cluster numbering: 0..n-1 or strictly increasing with gaps; with `repeats` also equal neighbours"""
     k = r.below(5)
-    if k < 3:
+    if k < 3 and not repeats:
         return list(range(n))
     out, c = [], r.below(4)
     for _ in range(n):
         out.append(c)
-        c += r.choice([1, 1, 1, 2, 3, 0]) if k == 4 else r.choice([1, 2, 5])
+        c += r.choice([1, 1, 0, 2, 0]) if repeats else r.choice([1, 2, 5])
     return out
 
 
 EXTRA_FEATURES = [None, None, None, "-kern", "-liga", "+smcp", "kern[1:3]=0", "-calt", "+dlig", "-mark", "-ccmp"]
+
+
+def fix_fstr(x):
+    """the fixtures quote some feature lists (--features="a,b"): drop the quotes before Feature::from_str sees them"""
+    if x.startswith("fstr="):
+        t = bytes.fromhex(x[5:]).decode().replace('"', "")
+        return "fstr=" + t.encode().hex()
+    return x
 
 
 def feature_extra(r):
@@ -206,7 +214,7 @@ class Shaping:
     *resolved* first (UnicodeBuffer::guess_segment_properties through `segprops`) and then given explicitly to
     the whole text and to every piece, as HarfBuzz's verifier copies the shaped buffer's segment properties."""
     __slots__ = ("g", "case", "text", "clusters", "dir", "script", "flags", "level", "extra", "pre", "post", "line",
-                 "subset", "req_dir")
+                 "subset", "req_dir", "native")
 
     def shape_line(self, text, clusters, flags, pre, post):
         c = self.case
@@ -222,43 +230,79 @@ class Shaping:
 
     def describe(self):
         return {"font": self.case.font, "font_index": self.case.index, "font_line": self.g["reg"],
+                "fid": self.g["fid"], "feats": [list(f) for f in self.case.feats], "pre": self.pre, "post": self.post,
                 "text": [f"U+{ord(c):04X}" for c in self.text], "clusters": self.clusters,
                 "direction": self.dir, "direction_requested": self.req_dir or "guess",
+                "script_direction": getattr(self, "native", None), "shaped_reversed": shaped_reversed(self),
                 "script": self.script, "language": self.case.lang, "buffer_flags": self.flags, "cluster_level": self.level,
                 "options": self.case.opts, "extra": self.extra, "request": self.line, "engine": "aat" if self.g["aat"] else "ot"}
 
 
-def make_shaping(r, g, flags, subset=None, dirs=("-", "l", "r", "t", "b"), levels=(0, 1), feats=True):
+def shaping_from_replay(rp):
+    """rebuilds the Shaping recorded by describe() (replay of a shape-level violation)"""
+    class C: pass
+    c = C()
+    c.font, c.index, c.lang, c.opts = rp["font"], rp["font_index"], rp["language"], rp.get("options", "")
+    c.feats = [tuple(f) for f in rp.get("feats", [])]
+    s = Shaping()
+    s.case = c
+    s.g = {"fid": rp["fid"], "reg": rp["font_line"], "aat": rp.get("engine") == "aat"}
+    s.text = "".join(chr(int(x[2:], 16)) for x in rp["text"])
+    s.clusters = rp["clusters"]
+    s.dir, s.script, s.flags, s.level = rp["direction"], rp["script"], rp["buffer_flags"], rp["cluster_level"]
+    s.req_dir = None if rp.get("direction_requested") in (None, "guess") else rp["direction_requested"]
+    s.extra, s.pre, s.post, s.subset = rp["extra"], rp.get("pre", ""), rp.get("post", ""), None
+    s.native = rp.get("script_direction") or "l"
+    s.line = s.shape_line(s.text, s.clusters, s.flags, s.pre, s.post)
+    return s
+
+
+def make_shaping(r, g, flags, subset=None, dirs=("-", "l", "r", "t", "b"), levels=(0, 1), feats=True, repeats=False):
     s = Shaping()
     s.g = g
     s.case, s.text = rand_text(r, g)
-    s.clusters = rand_clusters(r, len(s.text))
+    s.clusters = rand_clusters(r, len(s.text), repeats)
     d = r.choice(dirs)
     s.req_dir = None if d == "-" else d
     s.dir = s.req_dir or s.case.dir
     s.script = s.case.script
     s.flags = flags | (s.case.flags & ~0xC3) | r.choice([0, 3, 3, 3])
     s.level = r.choice(levels)
-    s.extra = list(s.case.extra) + (feature_extra(r) if feats else [])
-    s.pre, s.post = s.case.pre, s.case.post
+    s.extra = [fix_fstr(x) for x in s.case.extra] + (feature_extra(r) if feats else [])
+    # the metamorphic experiments are about the text alone: no caller-supplied pre/post context (a piece cannot
+    # inherit the part of the caller's context that is hidden behind other pieces)
+    s.pre, s.post = "", ""
     s.subset = subset
     s.line = None
     return s
 
 
 def resolve(shim, shapings):
-    """fills in the resolved direction/script and the whole-text request line"""
+    """fills in the resolved direction/script, the script's own horizontal direction and the whole-text request line"""
     q = []
     for s in shapings:
-        q.append(f"segprops {s.dir or '-'} {(s.script or '-').replace(' ', '_')} " + ",".join(f"{ord(c):x}" for c in s.text))
+        cps = ",".join(f"{ord(c):x}" for c in s.text)
+        sc = (s.script or '-').replace(' ', '_')
+        q.append(f"segprops {s.dir or '-'} {sc} {cps}")
+        q.append(f"segprops - {sc} {cps}")
     outs = vlib.run_lines(shim, q)
-    for s, o in zip(shapings, outs):
-        t = o.split()
+    for k, s in enumerate(shapings):
+        t = outs[2 * k].split()
+        n = outs[2 * k + 1].split()
         if len(t) == 2 and t[0] in "lrtb":
             s.dir = t[0]
             if s.script is None and t[1] != "-":
                 s.script = t[1]
+        s.native = n[0] if len(n) == 2 and n[0] in "lr" else "l"
         s.line = s.shape_line(s.text, s.clusters, s.flags, s.pre, s.post)
+
+
+def shaped_reversed(s):
+    """ot_shape.rs::ensure_native_direction reverses the buffer (grapheme-wise), shapes it in the script's own
+    direction and reverses the result: horizontal direction != the script's, or vertical != top-to-bottom."""
+    if s.dir in ("l", "r"):
+        return s.dir != getattr(s, "native", s.dir)
+    return s.dir == "b"
 
 
 def parse_shape(reply):
@@ -395,3 +439,188 @@ def same_shape(a, b):
 
 def fmt_glyphs(gl):
     return " ".join(f"{g[0]}={g[1]}#{g[2]:x}@{g[3]},{g[4]}+{g[5]},{g[6]}" for g in gl)
+
+
+# ------------------------------------------------------------------------------------------------
+# batch drivers for the two metamorphic experiments
+
+def _run_piece_groups(shim, jobs, timeout=900):
+    """jobs: list of (shaping, [piece request lines]); returns, per job, the list of raw replies"""
+    by = {}
+    for j, (s, lines) in enumerate(jobs):
+        by.setdefault(s.g["fid"], []).append(j)
+    groups, where = [], {}
+    for fid, js in by.items():
+        lines = [jobs[js[0]][0].g["reg"]]
+        for j in js:
+            where[j] = (len(groups), len(lines), len(jobs[j][1]))
+            lines += jobs[j][1]
+        groups.append(lines)
+    outs = vlib.run_groups(shim, groups, timeout=timeout)
+    res = []
+    for j in range(len(jobs)):
+        gi, off, n = where[j]
+        res.append(outs[gi][off:off + n])
+    return res
+
+
+def verify_break(shim, shapings, with_context=False):
+    """HarfBuzz's unsafe-to-break verifier on every shaping.  Returns one dict per shaping:
+    status in {"noresult", "nonmonotone", "cutfail", "single", "piecefail", "ok", "DIFF"}"""
+    res, raw = run_shapings(shim, shapings)
+    out = [None] * len(shapings)
+    jobs, idx = [], []
+    for i, (s, gl, rw) in enumerate(zip(shapings, res, raw)):
+        if gl is None:
+            out[i] = {"status": "noresult", "raw": rw}; continue
+        fwd = resolved_forward(s, gl)
+        if fwd is None or not monotone(gl, fwd):
+            out[i] = {"status": "nonmonotone", "whole": gl}; continue
+        pc = cut_ranges(s, gl, fwd, BREAK)
+        if pc is None:
+            out[i] = {"status": "cutfail", "whole": gl}; continue
+        if len(pc) < 2:
+            out[i] = {"status": "single", "whole": gl, "pieces": pc}; continue
+        jobs.append((s, piece_requests(s, pc, with_context))); idx.append((i, gl, pc))
+    for (i, gl, pc), (s, lines), replies in zip(idx, jobs, _run_piece_groups(shim, jobs)):
+        rec, ok = [], True
+        for x in replies:
+            p = parse_shape(x)
+            if p is None:
+                ok = False; break
+            rec += p
+        if not ok:
+            out[i] = {"status": "piecefail", "whole": gl, "pieces": pc, "piece_requests": lines, "piece_replies": replies}
+            continue
+        d = same_shape(gl, rec)
+        out[i] = {"status": "DIFF" if d else "ok", "whole": gl, "pieces": pc, "recon": rec, "diff": d,
+                  "piece_requests": lines, "piece_replies": replies}
+    return out
+
+
+def clone_without(s, k):
+    """the same shaping with character k removed (cluster numbering of the others kept)"""
+    t = Shaping()
+    for a in Shaping.__slots__:
+        setattr(t, a, getattr(s, a, None))
+    t.text = s.text[:k] + s.text[k + 1:]
+    t.clusters = s.clusters[:k] + s.clusters[k + 1:]
+    t.extra = list(s.extra)
+    t.line = t.shape_line(t.text, t.clusters, t.flags, t.pre, t.post)
+    return t
+
+
+def shrink(shim, s, verifier, max_rounds=30):
+    """greedy one-character deletion while `verifier(shim, [candidates])` still reports DIFF"""
+    cur = s
+    last = verifier(shim, [cur])[0]
+    for _ in range(max_rounds):
+        if len(cur.text) <= 1:
+            break
+        cands = [clone_without(cur, k) for k in range(len(cur.text))]
+        rs = verifier(shim, cands)
+        hit = [(c, r) for c, r in zip(cands, rs) if r and r["status"] == "DIFF"]
+        if not hit:
+            break
+        cur, last = hit[0]
+    return cur, last
+
+
+def verify_concat(shim, shapings):
+    """the UNSAFE_TO_CONCAT redistribution experiment (buffer_verify_unsafe_to_concat): segment the text at all cluster
+    starts free of UNSAFE_TO_CONCAT, even segments -> one text, odd segments -> another, shape both with the same
+    settings, take every segment's glyphs back (by cluster ownership) and interleave them in visual order."""
+    res, raw = run_shapings(shim, shapings)
+    out = [None] * len(shapings)
+    jobs, idx = [], []
+    for i, (s, gl, rw) in enumerate(zip(shapings, res, raw)):
+        if gl is None:
+            out[i] = {"status": "noresult", "raw": rw}; continue
+        fwd = resolved_forward(s, gl)
+        if fwd is None or not monotone(gl, fwd):
+            out[i] = {"status": "nonmonotone", "whole": gl}; continue
+        pc = cut_ranges(s, gl, fwd, CONCAT)
+        if pc is None:
+            out[i] = {"status": "cutfail", "whole": gl}; continue
+        if len(pc) < 2:
+            out[i] = {"status": "single", "whole": gl, "pieces": pc}; continue
+        segs = sorted(pc)                       # logical order
+        lines = []
+        for par in (0, 1):
+            chars = [k for j, (a, b) in enumerate(segs) if j % 2 == par for k in range(a, b)]
+            lines.append(s.shape_line("".join(s.text[k] for k in chars), [s.clusters[k] for k in chars], s.flags, "", ""))
+        jobs.append((s, lines)); idx.append((i, gl, segs, fwd))
+    for (i, gl, segs, fwd), (s, lines), replies in zip(idx, jobs, _run_piece_groups(shim, jobs)):
+        parts = [parse_shape(x) for x in replies]
+        base = {"whole": gl, "pieces": segs, "piece_requests": lines, "piece_replies": replies}
+        if any(p is None for p in parts):
+            out[i] = dict(base, status="piecefail"); continue
+        owner = {}
+        for j, (a, b) in enumerate(segs):
+            for k in range(a, b):
+                owner[s.clusters[k]] = j
+        per = {j: [] for j in range(len(segs))}
+        problem = None
+        for par, p in enumerate(parts):
+            order = []
+            for g in p:
+                j = owner.get(g[1])
+                if j is None or j % 2 != par:
+                    problem = f"glyph with cluster {g[1]} in the {'even' if par == 0 else 'odd'} text belongs to no segment of it"
+                    break
+                if not order or order[-1] != j:
+                    order.append(j)
+                per[j].append(g)
+            want = [j for j in range(len(segs)) if j % 2 == par]
+            if not fwd: want = want[::-1]
+            if problem is None and order != want:
+                problem = f"segments come back interleaved/out of order in the {'even' if par == 0 else 'odd'} text: {order} (expected {want})"
+            if problem: break
+        seq = range(len(segs)) if fwd else range(len(segs) - 1, -1, -1)
+        rec = [g for j in seq for g in per[j]]
+        d = problem or same_shape(gl, rec)
+        out[i] = dict(base, status="DIFF" if d else "ok", recon=rec, diff=d)
+    return out
+
+
+# ------------------------------------------------------------------------------------------------
+# documented finding classes of the two metamorphic experiments (see known_class)
+
+# Arabic/Syriac "prepended concatenation marks" and the Syriac abbreviation mark: their glyphs are stretched /
+# positioned over the *following* word by ot_shaper_arabic.rs (apply_stch, postprocess) without any glyph flag
+PCM = set(range(0x0600, 0x0606)) | {0x06DD, 0x070F, 0x0890, 0x0891, 0x08E2, 0x110BD, 0x110CD}
+
+KNOWN_CLASSES = {
+    "aat": "AAT path (morx/kerx): the state-machine driver's is_safe_to_break heuristic (aat_layout_morx_table.rs:251-296, same as "
+           "HarfBuzz) does not see SET_MARK / later mark substitutions, so a cluster start can be unflagged although the "
+           "machine state before it mattered (e.g. TestMORXTwentyfive.ttf 'AEAD': cut before the second A)",
+    "reversed": "direction forced against the script's own (or bottom-to-top): ensure_native_direction shapes the grapheme-reversed "
+                "text; marks / variation selectors / digits that open the text land behind another base, ligatures drop the flag of "
+                "their second component (set_cluster resets flags), digit-only pieces are not reversed at all — unflagged cluster "
+                "starts are then not safe (e.g. <FE00,0069> dir=rtl nfvs glyph; <0628,0661,06DD> dir=ltr)",
+    "repeated-clusters": "input cluster numbering with equal neighbours + a reordering shaper: merge_clusters after the reorder leaves "
+                         "one of two characters that share an input cluster value in the other output cluster "
+                         "(e.g. Malayalam <0D46:0,0D46:1,0D30:1> level 1 -> clusters 0,0,1)",
+    "arabic-pcm-stch": "Syriac abbreviation mark U+070F / Arabic prepended concatenation marks (U+0600..0605, 06DD, 0890, 0891, 08E2): "
+                       "ot_shaper_arabic.rs stretches / positions them over the following word (apply_stch) without setting any "
+                       "glyph flag, so cutting or re-joining next to them changes their glyphs' offsets",
+}
+
+
+def known_class(s):
+    """signature of a documented finding class this shaping falls into, or None (= anything that differs is new)"""
+    if s.g["aat"]:
+        return "aat"
+    if shaped_reversed(s):
+        return "reversed"
+    if len(set(s.clusters)) < len(s.clusters):
+        return "repeated-clusters"
+    if any(ord(c) in PCM for c in s.text):
+        return "arabic-pcm-stch"
+    return None
+
+
+def note_known(ctx, prop_stream, cls, count, example):
+    kid = f"{ctx.prop}-{cls}"
+    if kid not in [k.get("id") for k in ctx.known_hits]:
+        ctx.known_hits.append({"id": kid, "what": f"[{prop_stream}: {count} case(s), e.g. {example}] {KNOWN_CLASSES[cls]}"})
